@@ -15,8 +15,12 @@ def run(tier, seed):
     b = f"{w}/beh.ndjson"
     g = tlc_gen("MC_Settings.tla", "MC_Settings.cfg", "BEHAVIOUR", b, name="c18_gen")
     mc = [tlc_mc("MC_Settings.tla", "MC_Settings_mc.cfg", workers=4, name="c18_mc", coverage=False)]
-    r1 = vh(["settings", "--layouts", lay, "--templates", tp, "--in", b, "--seed", seed], name="c18", timeout=3000)
+    tf = f"{w}/settings_trace.ndjson"
+    r1 = vh(["settings", "--layouts", lay, "--templates", tp, "--in", b, "--seed", seed, "--out-trace", tf], name="c18", timeout=3000)
     v.add_report(r1, "construction x use")
+    # implementation -> specification: what every construction path really decided and whether every use came back
+    validated, ts = validate_trace(v, "Trace_Settings.tla", "Trace_Settings.cfg", tf, splitter="Build", max_rounds=8)
+    mc.append(dict(ts, cfg="Trace_Settings.cfg"))
     r2 = vh(["settings-real", "--seed", seed], name="c18r", timeout=600)
     v.add_report(r2, "accepted extremes on real loopback sockets")
     nviol, _ = v.finish()
@@ -24,7 +28,10 @@ def run(tier, seed):
         "rule": "every (path, read, write, connect, retries) configuration TLC enumerates (5^3 x 5 for new/serde, 4^3 x 5 for the command "
                 "line, Default) is constructed through the real path; every accepted one is used for a query of 13 entry points against a "
                 "valid, a malformed and (for small retry counts) a silent scripted server; distinct by configuration",
-        "exhaustive": True})
+        "exhaustive": True,
+        "impl_to_spec": "every construction (path, durations, retries -> accepted / rejected) and every use (returned or not) recorded and "
+                        "validated line by line against spec/Trace_Settings.tla (ZeroRejected, NonZeroAccepted, UseOnlyAccepted at every step)"},
+        validated=validated)
     write_evidence(PID, tier, seed, "fault_enumeration", cov, time.time() - t0, nviol,
                    ["a silent server with a retry count of usize::MAX is legitimately retried for ever and is not run",
                     "the command line expresses whole seconds only; an omitted flag is the documented 4 s default"])
